@@ -66,7 +66,7 @@ theorem rfc_chunked (fs : List (Bytes × Bytes)) (decl : List Bytes) (h : rfc723
 def roleOk (g : Cfg) (m : Msg) : Prop :=
   match m.start with
   | .request _ t pr => g.isClient = false ∧ g.urlOk t = true ∧ g.protoOk pr = true
-  | .status pr _ _ => g.isClient = true ∧ g.protoOk pr = true ∧ ∀ k, g.head k = false   -- no HEAD request outstanding
+  | .status pr _ _ => g.isClient = true ∧ g.protoOk pr = true
 
 /-- start line: from an idle parser to the header section -/
 theorem start_parse (g : Cfg) (m : Msg) (p : P) (rest : Bytes) (acc : List Ev)
@@ -102,7 +102,7 @@ theorem start_parse (g : Cfg) (m : Msg) (p : P) (rest : Bytes) (acc : List Ev)
     exact request_line g p [] me t pr rest acc hst hI.proto hm ht' (http1x_shape pr hpr).1 hu hv
   | status pr code reason =>
     simp only [roleOk] at hrole
-    obtain ⟨hc, hv, _⟩ := hrole
+    obtain ⟨hc, hv⟩ := hrole
     simp only [Start.wf, Bool.and_eq_true, beq_iff_eq, bne_iff_ne] at hwf
     obtain ⟨⟨⟨⟨⟨hpr, hl⟩, hd⟩, _⟩, hr0⟩, hrb⟩ := hwf
     have hst : p.st = .clientProtoBefore := by rw [hI.st]; simp [startSt, hc]
@@ -159,19 +159,6 @@ theorem msg_parse (g : Cfg) (m : Msg) (p : P) (rest : Bytes) (acc : List Ev)
   have htr : ph.tr = valuesOf m.fields (str "Trailer") := by subst hph; rfl
   have hch : ph.chunked = false := by subst hph; exact hI.chunked
   have hnb : ph.noBody = m.bodiless := by subst hph; rfl
-  have hh : NoHead g ph := by
-    intro hcli
-    unfold roleOk at hrole
-    split at hrole
-    · rw [hrole.1] at hcli; cases hcli
-    · exact hrole.2.2 _
-  have hcli : m.bodiless = true → g.isClient = true := by
-    intro hb
-    unfold Msg.bodiless at hb
-    unfold roleOk at hrole
-    split at hrole
-    · rename_i hs; rw [hs] at hb; cases hb
-    · exact hrole.1
   have hbh : ph.bodyHeld = 0 := by subst hph; exact hI.bodyHeld
   have htl : ph.trailer = [] := by subst hph; exact hI.trailer
   generalize hacc : acc ++ (m.start.events ++ List.map (fun h => Ev.header h.key h.evValue) m.headers) = accH
@@ -185,14 +172,14 @@ theorem msg_parse (g : Cfg) (m : Msg) (p : P) (rest : Bytes) (acc : List Ev)
     cases hbb : m.bodiless with
     | false =>
       obtain ⟨p', hp', e3⟩ := end_none g ph tok2 rest
-        accH hst hq (by rw [hte, t1]) (by rw [hcl, t2]) hch (by rw [hnb, hbb]) hh
+        accH hst hq (by rw [hte, t1]) (by rw [hcl, t2]) hch (by rw [hnb, hbb])
       refine ⟨p', hp', ?_⟩
       simp only [Body.render, crlf, List.append_nil, List.nil_append, List.append_assoc, List.cons_append] at e3 ⊢
       rw [e3, ← hacc]
       simp [eventsOf, hb, Body.events, Body.declared, Msg.declared, hbb]
     | true =>
       obtain ⟨p', hp', e3⟩ := end_bodiless g ph tok2 rest
-        accH hst hq (by rw [hte, t1]) (by rw [hcl, t2]) hch (by rw [hnb, hbb]) (hcli hbb)
+        accH hst hq (by rw [hte, t1]) (by rw [hcl, t2]) hch (by rw [hnb, hbb])
       refine ⟨p', hp', ?_⟩
       simp only [Body.render, crlf, List.append_nil, List.nil_append, List.append_assoc, List.cons_append] at e3 ⊢
       rw [e3, ← hacc]
@@ -211,7 +198,7 @@ theorem msg_parse (g : Cfg) (m : Msg) (p : P) (rest : Bytes) (acc : List Ev)
     obtain ⟨t1, v, t2, t3, t4, t5, t6⟩ := rfc_length _ _ hfr
     obtain ⟨p', hp', e3⟩ := end_length g ph tok2 rest
       accH v d hst hq
-      (by rw [hte, t1]) (by rw [hcl, t2]) hch (by rw [hnb, hbb]) hh hbh t3 t4 t5 (by rw [hn, t6]) hmax
+      (by rw [hte, t1]) (by rw [hcl, t2]) hch (by rw [hnb, hbb]) hbh t3 t4 t5 (by rw [hn, t6]) hmax
     refine ⟨p', hp', ?_⟩
     simp only [Body.render, crlf, List.append_nil, List.nil_append, List.append_assoc, List.cons_append] at e3 ⊢
     rw [e3, ← hacc]
@@ -233,11 +220,11 @@ theorem msg_parse (g : Cfg) (m : Msg) (p : P) (rest : Bytes) (acc : List Ev)
     obtain ⟨⟨⟨⟨b1, b2⟩, b3⟩, b4⟩, ⟨⟨⟨c1, c2⟩, c3⟩, c4⟩⟩ := hbm
     have e3 := end_chunked g ph tok2 ((Body.chunked cs last ext trs).render ++ rest)
       accH v hst (by rw [hte, t1]) t2
-      (by rw [hcl]; exact tcl) (by rw [htr]; exact t3) htl (by rw [hnb, hbb]) hh
+      (by rw [hcl]; exact tcl) (by rw [htr]; exact t3) htl (by rw [hnb, hbb])
     rw [htr, ← t4] at e3
     obtain ⟨p', hp', e4⟩ := chunked_body g
       { ph with te := [], cl := [], tr := [], chunked := true, contentLength := -1, trailer := decl,
-                respNo := nextNo g ph, st := .chunkSizeBefore, headerExists := false }
+                st := .chunkSizeBefore, headerExists := false }
       [] rest
       (accH ++ [.contentLength (-1)])
       cs last ext trs rfl ⟨hq.proto, hq.statusCode, hq.status, hq.hKey, hq.hVal⟩ rfl
